@@ -196,3 +196,21 @@ package vgirpc
 //@   at call enforceResponseBudgets assert [caps] arg1 == measured && arg2 == externalBytes && arg3 == h.maxResponseBytes && arg4 == h.maxExternalizedResponseBytes
 //@   at call (*HttpServer).writeArrow after enforceResponseBudgets assert [within] budgetOK && arg2 == 200 && len(arg3) == measured && (h.maxResponseBytes > 0 ==> len(arg3) <= h.maxResponseBytes)
 //@   at call (*HttpServer).writeExchangeCapError after enforceResponseBudgets assert [replaced] !budgetOK && arg4 == budgetErr && arg4 != nil
+
+// What the caps and thresholds measure (C19): a batch's size is the sum over EVERY column of
+// that column's whole array data — its own buffers, every child array and its dictionary
+// (repaired defect: only the columns' own buffers were summed, so a struct / list / map /
+// dictionary column measured as a few bytes and passed the external cap).
+//
+//@ func batchBufferSize
+//@   property C19
+//@   loop 0 invariant 0 <= i
+//@   at call arrow.RecordBatch.Column assert [everycolumn] arg0 == batch && arg1 == i && 0 <= i
+//@ func arrayDataBufferSize
+//@   property C19
+//@   pathvar kids []arrow.ArrayData
+//@   at call arrow.ArrayData.Children assert [ownchildren] arg0 == data
+//@   at call arrow.ArrayData.Children setflag kids result
+//@   at call arrayDataBufferSize#1 assert [everychild] 0 <= rangeindex + 1 && rangeindex + 1 < len(kids) && arg0 == kids[rangeindex+1]
+//@   at call arrow.ArrayData.Dictionary assert [owndictionary] arg0 == data
+//@   at call arrayDataBufferSize#2 assert [dictionarytoo] arg0 == iface(dict) && dict != nil
